@@ -511,12 +511,20 @@ func (e *Engine) appendOp(cc *ssa.CallCommon, args []Value) Value {
 	}
 	p := e.p
 	p.steps += int64(n)
+	// snapshot the source first: dst and src may overlap (memmove semantics)
+	var tmp []Value
+	if srcBytes == nil {
+		tmp = make([]Value, n)
+		for i := 0; i < n; i++ {
+			tmp[i] = copyVal(src.arr.e[src.off+i].v)
+		}
+	}
 	for i := 0; i < n; i++ {
 		c := &res.arr.e[res.off+dst.len+i]
 		if srcBytes != nil {
 			c.v = srcBytes[i]
 		} else {
-			assign(c, src.arr.e[src.off+i].v)
+			assign(c, tmp[i])
 		}
 	}
 	return res
@@ -537,11 +545,15 @@ func (e *Engine) copyOp(args []Value) Value {
 		if n > 0 {
 			e.writeCheck(dst.arr.hdr, "copy")
 		}
-		if n > 0 && s.arr == dst.arr && s.off < dst.off {
-			for i := n - 1; i >= 0; i-- {
-				assign(&dst.arr.e[dst.off+i], s.arr.e[s.off+i].v)
+		if n > 0 && s.arr == dst.arr && s.off != dst.off {
+			tmp := make([]Value, n)
+			for i := 0; i < n; i++ {
+				tmp[i] = copyVal(s.arr.e[s.off+i].v)
 			}
-		} else {
+			for i := 0; i < n; i++ {
+				assign(&dst.arr.e[dst.off+i], tmp[i])
+			}
+		} else if n > 0 && !(s.arr == dst.arr && s.off == dst.off) {
 			for i := 0; i < n; i++ {
 				assign(&dst.arr.e[dst.off+i], s.arr.e[s.off+i].v)
 			}
